@@ -5,9 +5,10 @@ import itertools
 import compat  # noqa: F401
 import bibgen
 from props.base import to_request, corpus_for  # noqa: F401
+from props import c01_fn
 
 ID = 'C01'
-LEAN_MODULES = ['PybtexModel.Props.C01']
+LEAN_MODULES = ['PybtexModel.Props.C01', 'PybtexModel.Props.C01x']
 THEOREMS = {
     'C01_value_roundtrip': 'value spellings: a well-formed value rendered with any mix of braced / quoted / bare-number literals, any case mask on macro names and any white space around "#", followed by white space and a non-extending character, is read back by parse_value as its expanded pieces (macros looked up case-insensitively); exactly the rendering is consumed, nothing is reported',
     'C01_field_roundtrip': 'a rendered field "ws name ws = ws value ws" is read back as the name as written plus the expanded pieces',
@@ -34,20 +35,36 @@ THEOREMS = {
     'C01_wordsOf_spec': 'the reference notion wordsOf is determined by three equations (empty text, a text without white space, a white-space character separates) and produces exactly the non-empty white-space-free pieces',
     'C01_split_names_spec': 'author/editor lists split into persons, characterised: a braced group with balanced body is one name whatever it contains; a balanced text without level-0 separator match is one name; junction: such a text followed by any spelling of " and " (a/A n/N d/D) and any non-empty text b is split off in front of the names of b; hence a list a0 w1 a1 ... wn an splits into exactly the stripped ai',
     'C01_months_predefined': 'jan ... dec (any case) expand to the regenerated month table without any @string',
+    # round 2 (Props/C01x.lean)
+    'C01_literal_verbatim': 'braced / quoted values on ARBITRARY input (not only rendered documents): whenever parse_value_part, behind white space, finds an opening { resp. " and succeeds with v, the text behind the opening delimiter is v, then the closing } resp. ", then exactly the unread rest - nothing dropped, unescaped or normalised at this stage - and v is well nested (no } below level 0, level 0 at the end, never deeper than 100). Hypotheses: the shape of the unread text and success of parse_value_part; says nothing about when it fails',
+    'C01_literal_iff': 'complete characterisation of braced / quoted values for EVERY unread text: behind white space and an opening { resp. ", parse_value_part succeeds with v leaving r unread IF AND ONLY IF the text behind the delimiter is v + closing delimiter + r and v passes the reference scan litScan of Spec/Bib.lean (braces matched, nesting <= 100, quoted spelling: no " at level 0) - the same predicate the well-formedness of C01_faithful uses; failure modes (which error) are not characterised',
+    'C01_constants_tie': 'kernel-evaluated against Gen/BibConsts.lean (regenerated from /repo every run): the 13 pattern descriptions equal Pat.desc, a literal nested max_level deep is read and one level more is "too many nested braces" (both spellings), the first key-less entry gets the regenerated prefix + "1"',
+    'C01_token_patterns': 'the regular expressions of LowLevelParser, for every text: KEY_PAREN / KEY_BRACE / NUMBER match exactly (iff) the longest non-empty prefix in their class ([^\\s,] / [^\\s,}] / [0-9], white space = the 29 code points), NAME matches exactly a NAME_CHARS character plus the longest run of NAME_CHARS + digits, a literal matches its character; the match is unique. About Pat.matchAt of the model; that the model classes are the ones of re is the differential op c01_token',
+    'C01_keyless_off': '[model wiring] with keyless_entries=False the reader with options (Model/BibOpts.lean: parseBibK, the model behind op c01_bibopts) is the reader parseBib the round-trip theorems are about, for every macro table, role list, wanted-set and mode',
+    'C01_keyless_numbering': 'key-less entries: process_entry(type, None, fields) is process_entry with the key unnamed-<counter> and the counter increased by one (first conjunct: unfolding [model wiring]); different counter values give different keys (decimal rendering is injective)',
+    'C01_keyless_numbering_nonvacuous': 'kernel-evaluated: three key-less entries (brace / parenthesis delimiters, leading comma, empty body) are read as unnamed-1..3 without reports',
+    'C01_person_fields_option': 'person_fields=roles: a field is a person field iff its name equals a role up to ASCII letter case; with person_fields=[] (the BibTeX engine) none is',
 }
 RULE = ('abstract documents (entries, @string, @preamble, @comment, junk; values = literal / macro pieces) rendered under layouts: '
         'every sequence of <= 2 commands of a pool and hand-written documents x every global layout combination {2 delimiters x 3 literal spellings x '
         'case masks x white-space kinds incl. CR/CRLF x trailing comma}; clause families (29 white-space code points in values, NAME_CHARS symbols / digits '
         'in identifiers, leading zeros, name separators in every case and built with "#", months redefined, field-less entries, Unicode key folding); '
         'larger random documents from rich pools with per-site random layout and per-command delimiter; non-trivial = document with an entry that has a '
-        'field; distinct by (document, layout) JSON')
+        'field; distinct by (document, layout) JSON; round 2: function-level families (get_token / parse_value on every short string over the token '
+        'alphabet, LowLevelParser alone, process_entry on command lists, normalize_whitespace, split_name_list) and parse_string with '
+        'macros= / person_fields= / keyless_entries= / wanted_entries=, one reader on several texts (harness/props/c01_fn.py)')
 TRUSTED = ['the expected database of a generated document is computed by the harness (bibgen.denote: expansion, white-space normalisation over '
            'the explicit 29-code-point table, first-occurrence-wins); the persons of a name-list value come from the Lean specification '
            'BibSpec.personsOf (splitNameList of C12, Person() of C04) evaluated by the driver - not from pybtex', 'NAME characters: the regenerated NAME_CHARS table',
-           'the entry-point scan of importlib.metadata behind pybtex.plugin.find_plugin is memoised per process (c01.fast_plugin_lookup)']
+           'the entry-point scan of importlib.metadata behind pybtex.plugin.find_plugin is memoised per process (c01.fast_plugin_lookup)',
+           'function-level ops (c01_token, c01_value, c01_lowlevel, c01_process, c01_consts) drive private names of LowLevelParser / Parser; on a tree '
+           'that does not expose them (static test c01_fn.private_api) they are dropped from the comparison, the public-API ops remain']
 ASSUMPTIONS = ['entry keys are folded with str.lower() character by character (Model/UniCase.lean, table regenerated from the interpreter): keys contain '
                'neither U+0130 (its lower case is two characters) nor U+03A3 (final-sigma context rule); entry types, field names and macro names '
-               'are NAMEs, i.e. ASCII', 'wanted_entries = None']
+               'are NAMEs, i.e. ASCII', 'theorems: wanted_entries = None; the correspondence op c01_bibopts varies wanted_entries with non-ASCII keys '
+               'kept in one spelling (the wanted-set of the model folds ASCII letters only: shared Model/CIMap.lean)',
+               'key-less documents (keyless_entries=True), custom macro tables and role lists: model + correspondence + C01_keyless_* / '
+               'C01_person_fields_option, no round-trip theorem']
 UNICODE_KEY_FOLDING = True      # the model compares keys with the Unicode normaliser (Bib.keyFold = lowerU)
 
 
@@ -146,18 +163,26 @@ def text_of(case):
 
 
 def impl(case):
+    if case.get('op') in c01_fn.OPS:
+        return c01_fn.impl(case)
     return parse_capture(text_of(case))
 
 
 def to_request(case):  # noqa: F811
+    if case.get('op') in c01_fn.OPS:
+        return c01_fn.to_request(case)
     return {'op': 'bibparse', 'text': text_of(case), 'strict': False, 'wanted': None, 'names': person_values(case)}
 
 
 def model_out(case, reply):
+    if case.get('op') in c01_fn.OPS:
+        return c01_fn.model_out(case, reply)
     return reply['out']
 
 
 def oracle(case, io, reply):
+    if case.get('op') in c01_fn.OPS:
+        return c01_fn.oracle(case, io, reply)
     fails = []
     if io['raised'] is not None:
         return ['faithful: reading raised %r' % (io['raised'],)]
@@ -182,7 +207,15 @@ def oracle(case, io, reply):
     return fails
 
 
+def reconcile(case, view, mo):
+    if case.get('op') in c01_fn.OPS:
+        return c01_fn.reconcile(case, view, mo)
+    return view, mo
+
+
 def buckets(case, io):
+    if case.get('op') in c01_fn.OPS:
+        return c01_fn.buckets(case, io)
     b = []
     if 'fixed' in case and case['fixed']:
         f = case['fixed']
@@ -196,6 +229,8 @@ def buckets(case, io):
 
 
 def nontrivial(case, io):
+    if case.get('op') in c01_fn.OPS:
+        return c01_fn.nontrivial(case, io)
     return bool(io.get('entries')) and any(e['fields'] or e['persons'] for e in io['entries'])
 
 
@@ -204,6 +239,8 @@ def corpus():
 
 
 def valid_case(case):
+    if case.get('op') in c01_fn.OPS and case['op'] != 'c01_bibopts':
+        return True
     if 'doc' not in case:
         return True
     import re
@@ -375,6 +412,8 @@ def gen_cases(tier, rng, info):
         # the delimiter pair is chosen per command by the layout (one document in five keeps one pair throughout)
         fixed = {'paren': rng.random() < 0.3} if i % 5 == 1 else {}
         cases.append({'op': 'bibparse', 'doc': doc, 'choices': choices, 'fixed': fixed})
+    cases.extend(c01_fn.gen_cases(tier, rng, info))
+    info['scope'] += '; ' + info.pop('scope_fn')
     return cases
 
 
@@ -389,7 +428,10 @@ LEVEL_TEXT = ('Machine-checked printer/parser proof (Lean 4) about the executabl
               'keys are folded with str.lower(), the Unicode mapping (C01_key_folding); month macros are predefined (C01_months_predefined). "Values '
               'white-space-normalised" and "name lists split into persons" are characterised without reference to the definitions (C01_normalize_spec, '
               'C01_wordsOf_spec, C01_split_names_spec). Staged lemmas (value, field, entry, @string, @preamble, @comment) are published as theorems of their '
-              'own. The same documents and layouts are generated by the harness and the implementation is compared with the model and with the harness-side '
+              'own. Round 2: braced / quoted literals are characterised for EVERY input text (C01_literal_iff: accepted iff the reference scan accepts, returned '
+              'verbatim), the token regular expressions as longest class runs (C01_token_patterns), the options of Parser(...) are inside the model '
+              '(C01_keyless_off: with the default the same reader), hand-written constants are proved equal to regenerated ones (C01_constants_tie), and every '
+              'intermediate function of the reader has a function-level correspondence op. The same documents and layouts are generated by the harness and the implementation is compared with the model and with the harness-side '
               'denotation (persons from the Lean specification).')
 LEVEL_NOTE = ('Trusted: Lean kernel; axioms propext/Classical.choice/Quot.sound only; the hand-written model (Model/BibParse.lean) corresponds to the '
               'code as far as the differential check explores; Spec/Bib.lean (ADoc, Layout, render, denote / denoteD, reports, WF / WFD) is what a reader has '
